@@ -148,7 +148,7 @@ fn assign_impl<F: Float + std::fmt::Debug, D: Distance<F> + std::fmt::Debug + 's
     // a model whose centroid matrix keeps the caller's memory layout (one fit_with step)
     if matches!(&c.init, Init::Precomputed(_)) {
         let rng = Xoshiro256Plus::seed_from_u64(c.seed);
-        if let Some(g) = fit_with_once(obs, &pr, c.k, rng, dist.clone(), &c.init, c.c0_layout, tol) {
+        if let Some(g) = fit_with_once(obs, &pr, c.k, rng, dist.clone(), &c.init, c.c0_layout, tol, 1) {
             let finite = g.cent64.iter().flatten().all(|v| v.is_finite()) && g.model.centroids().dim() == (c.k, pr.p);
             if obs.ensure(finite, "centroids:not-finite", || format!("fit_with model: centroids {:?}", g.cent64)) {
                 obs.class_if(!g.model.centroids().is_standard_layout(), "model_centroids_not_row_major");
@@ -371,9 +371,9 @@ pub fn check_restarts(c: &Case, obs: &mut Obs) {
     dispatch!(c.data.f32_, c.metric, restarts_impl, c, obs)
 }
 
-fn restarts_impl<F: Float, D: Distance<F>>(c: &Case, obs: &mut Obs, dist: D) {
+fn restarts_impl<F: Float + std::fmt::Debug, D: Distance<F> + std::fmt::Debug + 'static>(c: &Case, obs: &mut Obs, dist: D) {
     let pr = prep::<F>(&c.data);
-    if pr.n == 0 || pr.p == 0 || c.k == 0 || c.k > pr.n || c.n_runs == 0 || c.init == Init::Para {
+    if pr.n == 0 || pr.p == 0 || c.k == 0 || c.k > pr.n || c.n_runs == 0 {
         obs.skip("degenerate_case");
         return;
     }
@@ -383,6 +383,9 @@ fn restarts_impl<F: Float, D: Distance<F>>(c: &Case, obs: &mut Obs, dist: D) {
     let tau_f = F::cast(tol).to_f64().unwrap_or(f64::NAN);
     let r = c.n_runs;
     let budget = c.max_iter + 1;
+    if !incr_restarts(c, &pr, obs, dist.clone(), tol) {
+        return;
+    }
 
     // prefix fits: j restarts from the same seed
     let mut pos = vec![0u64];
@@ -491,6 +494,77 @@ fn restarts_impl<F: Float, D: Distance<F>>(c: &Case, obs: &mut Obs, dist: D) {
     obs.nontrivial_if((r >= 2 && differing) || dup);
 }
 
+/// The incremental entry point: `fit_with(None, batch)` draws `n_runs` initialisations from the
+/// caller's RNG stream and keeps the cheapest one (cost = sum of minimal reduced distances of the
+/// batch), then performs one mini-batch step. For j = 1..=R the result must be the one-restart result
+/// of a cheapest candidate among the first j, re-created at the measured stream positions; hence
+/// the reported inertia never rises with j. Returns false when nothing further can be judged.
+fn incr_restarts<F: Float + std::fmt::Debug, D: Distance<F> + std::fmt::Debug + 'static>(c: &Case, pr: &Prep<F>, obs: &mut Obs, dist: D, tol: f64) -> bool {
+    let rr = c.incr_runs;
+    if rr == 0 {
+        return true;
+    }
+    obs.class("incremental_entry_point");
+    obs.class_if(rr >= 3, "incremental_n_runs_ge_3");
+    let mut pos = vec![0u64];
+    let mut prefix = vec![];
+    for j in 1..=rr {
+        let rng = CountRng::new(c.seed, 0);
+        let handle = rng.clone();
+        let Some(f) = fit_with_once(obs, pr, c.k, rng, dist.clone(), &c.init, c.c0_layout, tol, j) else { return false };
+        pos.push(handle.count());
+        prefix.push(f);
+    }
+    let mut single = vec![];
+    for i in 1..=rr {
+        let rng = CountRng::new(c.seed, pos[i - 1]);
+        let handle = rng.clone();
+        let Some(f) = fit_with_once(obs, pr, c.k, rng, dist.clone(), &c.init, c.c0_layout, tol, 1) else { return false };
+        if handle.count() != pos[i].wrapping_sub(pos[i - 1]) {
+            obs.skip("rng_stream_not_prefix_stable");
+            return false;
+        }
+        single.push(f);
+    }
+    for j in 1..rr {
+        obs.ensure(prefix[j].inertia <= prefix[j - 1].inertia, "incr:inertia-increased-with-more-runs", || {
+            format!(
+                "fit_with(None, ..), same seed: n_runs = {} reports inertia {:e}, n_runs = {} reports {:e}; the restarts on their own: {:?}",
+                j,
+                prefix[j - 1].inertia,
+                j + 1,
+                prefix[j].inertia,
+                single[..=j].iter().map(|s| s.inertia).collect::<Vec<_>>()
+            )
+        });
+    }
+    let mut pattern = false;
+    for j in 1..=rr {
+        let got = &prefix[j - 1];
+        let costs: Vec<f64> = single[..j].iter().map(|s| s.inertia).collect();
+        let best = costs.iter().cloned().fold(f64::INFINITY, f64::min);
+        obs.ensure(got.inertia == best, "incr:inertia-not-minimum-over-candidates", || {
+            format!("fit_with(None, ..) with n_runs = {j}: reported inertia {:e}; the {j} initialisations on their own give {:?}", got.inertia, costs)
+        });
+        let cands: Vec<usize> = (0..j).filter(|&i| costs[i] == best).collect();
+        let ok = cands.iter().any(|&i| bits_equal(&single[i].cent, &got.cent) && single[i].counts == got.counts);
+        obs.ensure(ok, "incr:model-not-from-best-candidate", || {
+            format!(
+                "fit_with(None, ..) with n_runs = {j}: centroids {:?} / counts {:?} are not those obtained from a cheapest initialisation (candidates {:?} of costs {:?})",
+                got.cent64, got.counts, cands, costs
+            )
+        });
+        // a later restart beats the first one but is not the best so far (e.g. costs [9, 5, 7])
+        if j >= 3 {
+            let last = costs[j - 1];
+            let best_before = costs[..j - 1].iter().cloned().fold(f64::INFINITY, f64::min);
+            pattern |= last < costs[0] && last > best_before;
+        }
+    }
+    obs.class_if(pattern, "incremental_later_restart_beats_first_but_not_best");
+    true
+}
+
 // ------------------------------------------------------------------------------------------------
 // large: n in the hundreds/thousands so that the parallel assignment loop really splits
 
@@ -542,6 +616,7 @@ fn large_impl<F: Float, D: Distance<F>>(c: &LargeCase, obs: &mut Obs, dist: D) {
         }
         let c0: Vec<Vec<f64>> = picks.iter().map(|&i| data.rows[i].clone()).collect();
         let tc = Case {
+            incr_runs: 0,
             data: data.clone(),
             k: c.k,
             metric: c.metric,
